@@ -181,7 +181,8 @@ def with_required(rng, v, p=0.1):
 ENV = {"HOME": "/home/u", "NUM": "42", "BOOLISH": "true", "NULLISH": "null", "DIR": "$merge:a", "EMPTY": "", "SP": "a b",
        "EQ": "k=v=w", "REFTXT": "{a}"}
 ENCODES = ["base64", "sha256", "join", "join:,", "join:-", "prefix:p-", "flatten", "values", "tolist:=", "tolist::",
-           "flags", "flags:x", "base64:x", "prefix", "tolist", "nosuch", "values:x", "sha256:1", "join:a:b"]
+           "flags", "flags:x", "base64:x", "prefix", "tolist", "nosuch", "values:x", "sha256:1", "join:a:b",
+           "join: ", "prefix:-e ", "tolist: ", " base64", "sha256 ", " values", "join:\t", "prefix: > ", "flatten "]
 
 
 def map_paths(v, prefix=()):
